@@ -732,6 +732,34 @@ fn templates() -> Vec<Json> {
         case["value"] = json!(format!("\"{joined}\""));
         t.push(case);
     }
+    // a comment between two tokens separates them like a blank: tokens on either side of it never join
+    // into a longer operator
+    let tcm = "m := mut 3; x := 2; y := 5; c3 := mut 4; bt := true; ";
+    for (name, flat, expected) in [
+        ("mul comment deref", "x */* times */*m", "x * (*m)"),
+        ("mul empty comment deref", "x */**/*m", "x * (*m)"),
+        ("minus comment minus", "x -/* c */-y", "x - (-y)"),
+        ("less comment minus", "x </* c */-y", "x < (-y)"),
+        ("greater comment minus", "x >/**/-y", "x > (-y)"),
+        ("assign comment minus", "r := c3 =/* c */-y; (r, *c3)", "r := (c3 = (-y)); (r, *c3)"),
+        ("assign comment deref", "r := c3 =/**/*m; (r, *c3)", "r := (c3 = (*m)); (r, *c3)"),
+        ("and comment not", "bt &/* c */!bt", "bt & (!bt)"),
+        ("or comment not", "bt |/**/!bt", "bt | (!bt)"),
+        ("plus comment plus-assign look-alike", "r := c3 +/* c */= 2; (r, *c3)", "<rejected>"),
+        ("line comment between", "x *// c\n*m", "x * (*m)"),
+        ("shift look-alike", "x </**/< y", "<rejected>"),
+    ] {
+        if expected == "<rejected>" {
+            // two tokens that would form a compound operator only if the comment vanished: rejected, never
+            // the value of the compound operator
+            let joined = flat.replace("/* c */", "").replace("/**/", "");
+            let mut case = tpl("tokenisation", name, tcm, flat, flat, &[], false);
+            case["forbidden"] = json!([joined]);
+            t.push(case);
+        } else {
+            t.push(tpl("tokenisation", name, tcm, flat, expected, &[], true));
+        }
+    }
     // `**` (and `**=`) in front of a cell: `* *m` would be well typed, `** m` is not (the documented
     // operands of ** are numbers), so the text may be rejected but never has the value of the product
     let tc = "m := mut 3; x := 2; c2 := mut 2; ";
